@@ -1,6 +1,7 @@
 import GV.Drv.Orch
 import GV.Drv.KC
 import GV.Drv.Eval
+import GV.Drv.EvalSpec
 open Lean GV.Drv
 
 def handle (line : String) : String :=
@@ -10,7 +11,7 @@ def handle (line : String) : String :=
     match jStr j "scn" with
     | "orch" => (orchCase j).compress
     | "kc" => (kcCase j).compress
-    | "eval" => (evalCase j).compress
+    | "eval" => (evalCaseFull j).compress
     | s => (Json.mkObj [("i", jObj j "i"), ("error", Json.str s!"unknown scenario {s}")]).compress
 
 partial def loop (h : IO.FS.Stream) (out : IO.FS.Stream) : IO Unit := do
